@@ -13,7 +13,7 @@ REPO_SRC = ["src/threading/rwp/Resource.cpp"]
 TB = [
     "modelled, not verified: pthread mutex / condition-variable semantics (atomic release-and-block in wait, no lost notification under the mutex, notify_all reaches every thread blocked at that moment); spurious wake-ups are allowed in the safety theorems (C01, C03, C12_reader_fast) and excluded in the liveness ones",
     "execution model: sequentially consistent interleaving of m_mutex critical sections (justified by data-race freedom, C15)",
-    "unbounded Nat tickets (64-bit wrap-around of m_idCounter not modelled)",
+    "unbounded Nat tickets: the int64_t wrap-around of m_idCounter is not modelled; Rwp.idc_le_requests proves the counter never exceeds the number of lock requests made so far, so it cannot wrap before 2^63 requests on one Resource without an idle moment",
     "the tie is by exploration: controlled-scheduler executions of the real Resource.cpp are replayed step by step on the model (every critical section and notification must match)",
 ]
 ASSUME = ["every holder eventually unlocks (finite critical sections)", "fair scheduler for liveness",
@@ -31,8 +31,8 @@ PROPS = {
     },
     "C02": {
         "design_ref": "6.1/C02",
-        "lean_modules": ["Tulz.Props.C02", "Tulz.Proofs.Rwp.Warp"],
-        "theorems": ["Rwp.C02_no_deadlock", "Rwp.C02_measure_decreases", "Rwp.C02_idle_restored", "Rwp.C02_admitted_wakes",
+        "lean_modules": ["Tulz.Props.C02", "Tulz.Proofs.Rwp.Warp", "Tulz.Proofs.Rwp.IdBound"],
+        "theorems": ["Rwp.idc_le_requests", "Rwp.C02_no_deadlock", "Rwp.C02_measure_decreases", "Rwp.C02_idle_restored", "Rwp.C02_admitted_wakes",
                      "Rwp.C02_every_run_finishes", "Rwp.C02_idle_grants_immediately",
                      # not part of the property: the state from which the harness starts its long-busy runs is a reachable one
                      "Rwp.warp_reachable"],
